@@ -46,6 +46,11 @@ Clauses(e) ==
      \cup F(e.compat.seen = 1 => e.compat.argafter = e.compat.arg, "C17", "StdLibCompatible_helper_modified_its_argument")
      \cup F(e.compat.seen = 1 /\ e.std.seen = 1 /\ e.std.ok = 1 /\ v.ok /\ ~deep => TreeMatch(v.tree, e.compat.out, TRUE),
             "C17", "compat_value_differs_from_encoding_json_rule")
+     \* trees too deep to log (single-keyed objects only): every key and string of the helper's result is the
+     \* replacement of the corresponding one of its argument
+     \cup F(e.deepcompat.seen = 1 => /\ Len(e.deepcompat.out) = Len(e.deepcompat.arg)
+                                     /\ \A i \in 1..Len(e.deepcompat.arg) : e.deepcompat.out[i] = Utf8Sanitize(e.deepcompat.arg[i]),
+            "C17", "StdLibCompatible_slice_or_map_on_a_deep_value")
      \cup F(e.unch = 1, "C16", "input_modified") \cup F(e.panics = 0, "C10", "panic")
 
 TraceInit == l = 1
